@@ -87,8 +87,9 @@ class Ctx:
 
     def cover(self, constructs: list[str], by: str, supersedes: list[str], bound: str, whole_rules: list[str] | None = None) -> None:
         """declare that the behaviour of `constructs` was decided HOLDS by rule `by` (bounded abstract evaluation over `bound`): verdicts of the
-        structural rules in `supersedes` on those constructs that are not HOLDS - the form of the code is not one the structural rule knows -
-        are then recorded as HOLDS 'decided semantically' (structure first, semantics as the fallback for unrecognised forms).  Only called
+        structural rules in `supersedes` on those constructs that are ANALYSIS-ERROR - the form of the code is not one the structural rule knows -
+        are then recorded as HOLDS 'decided semantically' (a VIOLATION, i.e. a located slot with a rejected value, is never superseded: the defect may lie
+        beyond the bound or outside what abstract values model, e.g. integer width) (structure first, semantics as the fallback for unrecognised forms).  Only called
         when `by` found no deviation and left nothing undecided"""
         # whole_rules: structural rules *all* of whose anchors are among `constructs` - their floor / extractor errors (reported at the rule
         # itself, not at a construct) are superseded as well
@@ -97,8 +98,8 @@ class Ctx:
     def apply_covers(self) -> int:
         n = 0
         for ob in self.obligations:
-            if ob.verdict == HOLDS:
-                continue
+            if ob.verdict != ERROR:
+                continue   # only *unrecognised* forms are handed to the semantic rule; a located slot judged VIOLATION stands
             for c in self.covers:
                 if ob.rule in c["supersedes"] and ob.construct in c["constructs"]:
                     ob.slot = {"structural_verdict": ob.verdict, "structural_slot": jsonable(ob.slot), "decided_by": c["by"], "bound": c["bound"]}
